@@ -131,7 +131,8 @@ class _Tx:
             v = e.value
             if float(v) != int(v):
                 self.fail(e, "non-integer literal")
-            return f"({int(v)} : K)" if int(v) >= 0 else f"(-{-int(v)} : K)"
+            lit = lambda k: f"({k} : K)" if k in (0, 1) else f"(({k} : Nat) : K)"   # core Lean: only 0 and 1 are OfNat
+            return lit(int(v)) if int(v) >= 0 else f"(-{lit(-int(v))})"
         if isinstance(e, (ast.Name, ast.Attribute, ast.Subscript)):
             t = self.atom(e)
             if ty == want:
@@ -165,6 +166,10 @@ class _Tx:
         if cn == "np.log1p" and len(e.args) == 1 and not e.keywords:
             t = f"(1 + {self.expr(e.args[0], LIN)})"
             return t if want == LOG else f"lg {t}"
+        if cn == "np.log" and len(e.args) == 1 and not e.keywords:
+            # the logarithm of a real: as a log-domain number it IS that real; read as a real it is `lg` of it
+            t = self.expr(e.args[0], LIN)
+            return t if want == LOG else f"lg ({t})"
         if cn == "np.exp" and len(e.args) == 1 and not e.keywords:
             if want == LIN:
                 return self.expr(e.args[0], LOG)
@@ -369,3 +374,46 @@ def translate(repo, spec: LogSpec) -> Tuple[str, dict]:
             f"(lines {fn.lineno}–{fn.end_lineno}, sha256 {sha}).\n{spec.doc} -/\n"
             f"def {spec.name} (lg ex : K → K) {flags} (s : {spec.struct}) {params} : {spec.struct} :=\n  {body}\n  ⟨{ctor}⟩\n")
     return lean, dict(first_line=fn.lineno, last_line=fn.end_lineno, sha256=sha, statements=len(fn.body), lets=len(tx.lines))
+
+
+@dataclass
+class FnSpec:
+    """a module-level function whose body is (assignments and) one `return e1, e2, …`"""
+    source: str
+    func: str
+    name: str
+    params: Sequence[Tuple[str, str, str]]       # (python parameter, lean name, LOG | LIN)
+    returns: Sequence[str]                        # type of each returned component
+    locals_: Dict[str, str] = field(default_factory=dict)
+    doc: str = ""
+
+
+def translate_fn(repo, spec: FnSpec) -> Tuple[str, dict]:
+    from pathlib import Path
+    import hashlib
+    text = (Path(repo) / spec.source).read_text()
+    fn = find_function(ast.parse(text), spec.func, None)
+    got = [a.arg for a in fn.args.args]
+    if got != [p for p, _, _ in spec.params] or fn.args.vararg or fn.args.kwarg or fn.args.kwonlyargs or fn.args.defaults:
+        raise TranslationError(f"{spec.func}: signature {got} differs from the modelled one {[p for p, _, _ in spec.params]}")
+    ls = LogSpec(source=spec.source, cls="", func=spec.func, name=spec.name, struct="", fields=[], params=spec.params,
+                 locals_=dict(spec.locals_))
+    tx = _Tx(ls)
+    body = [s_ for s_ in fn.body if not (isinstance(s_, ast.Expr) and isinstance(s_.value, ast.Constant))]
+    if not body or not isinstance(body[-1], ast.Return) or body[-1].value is None:
+        raise TranslationError(f"{spec.func}: the body does not end in `return …`")
+    tx.block(body[:-1])
+    rv = body[-1].value
+    comps = list(rv.elts) if isinstance(rv, ast.Tuple) else [rv]
+    if len(comps) != len(spec.returns):
+        raise TranslationError(f"{spec.func}: returns {len(comps)} values, the model has {len(spec.returns)}")
+    terms = [tx.expr(c, ty) for c, ty in zip(comps, spec.returns)]
+    params = " ".join(f"({ln} : K)" for _, ln, _ in spec.params)
+    rty = " × ".join("K" for _ in terms)
+    lets = "".join(f"  {ln}\n" for ln in tx.lines)
+    seg = ast.get_source_segment(text, fn) or ""
+    sha = hashlib.sha256(seg.encode()).hexdigest()[:16]
+    lean = (f"/-- GENERATED by harness/pylog2lean.py from `{spec.source}`, `{spec.func}` (lines {fn.lineno}–{fn.end_lineno}, "
+            f"sha256 {sha}).\n{spec.doc} -/\n"
+            f"def {spec.name} (lg ex : K → K) {params} : {rty} :=\n{lets}  (" + ", ".join(terms) + ")\n")
+    return lean, dict(source=spec.source, lines=[fn.lineno, fn.end_lineno], sha256=sha)
